@@ -1,6 +1,7 @@
 package main
 
 import (
+	"strings"
 	"fmt"
 	"math/big"
 	"runtime/debug"
@@ -189,6 +190,7 @@ type lendSeizure struct {
 }
 
 type lendLiqTracker struct {
+	livenessReported map[uint64]bool
 	prevBorrows map[uint64]lendtypes.BorrowAsset
 	prevBal     map[string]sdk.Int // "module/denom"
 	locked      map[uint64]uint64  // locked vault id -> borrow id
@@ -457,8 +459,57 @@ func (o *c09LendOracle) After(w *World, ev *Event, res Result) *Violation {
 			w.Stats.Probe("c09l.liveness_clock_running")
 		}
 		if age > bound {
-			return &Violation{Property: "C09", OracleID: "c09l.liveness", Signature: "borrow_not_seized",
-				Detail: fmt.Sprintf("borrow %d has been clearly unsafe for %d consecutive blocks with liquidation and dutch auctions enabled, all prices active and no breaker (list length %d, batch %d, bound %d)", id, age, n, batch, bound)}
+			if t.livenessReported == nil {
+				t.livenessReported = map[uint64]bool{}
+			}
+			if t.livenessReported[id] {
+				continue
+			}
+			// diagnosis for the signature only: why does the seizure not go through? (dry run on a discarded branch)
+			why, cont := "", false
+			func() {
+				defer func() {
+					if r := recover(); r != nil {
+						if strings.Contains(fmt.Sprint(r), "division by zero") {
+							why, cont = ":interest_calculation_divides_by_zero", true
+						} else {
+							why = ":seizure_panics"
+						}
+					}
+				}()
+				cctx, _ := w.WCtx().CacheContext()
+				if err := w.App.NewliqKeeper.LiquidateIndividualBorrow(cctx, id, "", false); err != nil {
+					if strings.Contains(err.Error(), "insufficient funds") || strings.Contains(err.Error(), "is smaller than") {
+						why, cont = ":pool_no_longer_holds_the_pledged_collateral", true
+					} else {
+						why = ":seizure_fails"
+						// the module masks the underlying error; check the one cause we can observe from outside
+						if b, ok := w.App.LendKeeper.GetBorrow(cctx, id); ok {
+							if lp, ok := w.App.LendKeeper.GetLend(cctx, b.LendingID); ok {
+								if pool, ok := w.App.LendKeeper.GetPool(cctx, lp.PoolID); ok {
+									have := w.App.BankKeeper.GetBalance(cctx, w.ModAddr(pool.ModuleName), b.AmountIn.Denom)
+									_ = have
+									pair, _ := w.App.LendKeeper.GetLendPair(cctx, b.PairID)
+									if as, ok := w.App.AssetKeeper.GetAsset(cctx, pair.AssetIn); ok {
+										bal := w.App.BankKeeper.GetBalance(cctx, w.ModAddr(pool.ModuleName), as.Denom)
+										if bal.Amount.LT(b.AmountIn.Amount) {
+											why, cont = ":pool_no_longer_holds_the_pledged_collateral", true
+										}
+									}
+								}
+							}
+						}
+						if debugLiq {
+							fmt.Println("SEIZE ERR:", err, why)
+						}
+					}
+				}
+			}()
+			if cont {
+				t.livenessReported[id] = true
+			}
+			return &Violation{Property: "C09", OracleID: "c09l.liveness", Signature: "borrow_not_seized" + why, Continue: cont,
+				Detail: fmt.Sprintf("borrow %d has been clearly unsafe for %d consecutive blocks with liquidation and dutch auctions enabled, all prices active and no breaker (list length %d, batch %d, bound %d)%s", id, age, n, batch, bound, why)}
 		}
 	}
 	return nil
